@@ -83,8 +83,8 @@ func (c *cacheConfig) validate() (err error) {
 		)
 	case c.Size < 0:
 		return newNegativeError("size", c.Size)
-	case c.Type == cacheTypeECS && c.ECSSize < 0:
-		return newNegativeError("ecs_size", c.ECSSize)
+	case c.Type == cacheTypeECS && c.ECSSize <= 0:
+		return newNotPositiveError("ecs_size", c.ECSSize)
 	default:
 		// Go on.
 	}
